@@ -57,6 +57,37 @@ type stats struct {
 	leads     map[string]int
 	sampled   int
 	panicSeen map[string]bool
+	pending      map[string]*pendingViolation
+	pendingOrder []string
+	confirmed map[string]bool     // signatures confirmed by a reproduced mismatch
+	unrepro   map[string][]string // signature -> mismatches that did not reproduce
+}
+
+func newStats() *stats {
+	return &stats{perVar: map[string]*varStat{}, leads: map[string]int{}, confirmed: map[string]bool{}, unrepro: map[string][]string{}, pending: map[string]*pendingViolation{}}
+}
+
+// settleUnreproduced: a mismatch that did not reproduce is inconclusive, unless the same failure
+// class on the same store was reproduced by another behaviour (timing-dependent defects).
+func (rn *runner) settleUnreproduced() {
+	rn.st.mu.Lock()
+	defer rn.st.mu.Unlock()
+	flaky := map[string]int{}
+	for sig, msgs := range rn.st.unrepro {
+		if rn.st.confirmed[sig] {
+			flaky[sig] = len(msgs)
+			continue
+		}
+		for i, m := range msgs {
+			if i < 5 {
+				rn.c.Inconclusive(m)
+			}
+		}
+	}
+	if len(flaky) > 0 {
+		rn.c.Extra("unreproduced_mismatches_of_confirmed_classes", flaky)
+	}
+	rn.st.unrepro = map[string][]string{}
 }
 
 type varStat struct {
@@ -118,17 +149,24 @@ func (rn *runner) execute(j *job) {
 	}
 	// reproduce on a fresh store
 	repro := false
-	for try := 0; try < 3 && !repro; try++ {
+	for try := 0; try < 5 && !repro; try++ {
 		n2 := int(atomic.AddInt64(&rn.seq, 1))
 		r2 := runPath(j.v, rn.base, n2, j.emb, j.BatchEx, j.Steps, rn.timeout)
 		if r2.First != nil && r2.First.Class == m.Class {
 			repro = true
 		}
 	}
+	sig := j.v.Name + ":" + m.Class
 	if !repro {
-		c.Inconclusive(fmt.Sprintf("mismatch on %s did not reproduce: %s", j.v.Name, m.String()))
+		// decided at the end: inconclusive unless the same failure class was confirmed elsewhere
+		rn.st.mu.Lock()
+		rn.st.unrepro[sig] = append(rn.st.unrepro[sig], fmt.Sprintf("mismatch on %s did not reproduce: %s", j.v.Name, m.String()))
+		rn.st.mu.Unlock()
 		return
 	}
+	rn.st.mu.Lock()
+	rn.st.confirmed[sig] = true
+	rn.st.mu.Unlock()
 	rn.violation(j, m, false)
 }
 
@@ -152,21 +190,67 @@ func describe(m *mismatch) string {
 		return "a range iterator returned a key outside [start, end)"
 	case "batch-repeated-key-order":
 		return "a key set/deleted more than once in one batch does not end with the last operation's value"
+	case "scan-disagrees-with-get":
+		return "a full scan (PrefixIterator) of a new reader does not list a key that Get on the same reader returns"
 	case "reader-isolation":
 		return "the full scan of an open reader changed after a later batch: " + fmt.Sprint(m.Expected) + " vs " + fmt.Sprint(m.Got)
 	}
 	return m.String()
 }
 
+// violation queues a confirmed failure; emit() reports it. A wrapper variant (metrics/X, moss+X)
+// that fails in the same class as its base adapter is reported under the base adapter's
+// signature: it is the same defect seen through a wrapper.
 func (rn *runner) violation(j *job, m *mismatch, truncate bool) {
-	sig := j.v.Name + ":" + m.Class
-	steps := j.Steps
-	if m.StepIdx+1 < len(steps) {
-		steps = steps[:m.StepIdx+1]
+	rn.st.mu.Lock()
+	defer rn.st.mu.Unlock()
+	key := j.v.Name + ":" + m.Class
+	if _, ok := rn.st.pending[key]; ok {
+		return
 	}
-	what := fmt.Sprintf("KV store %s: %s", j.v.Name, describe(m))
-	rn.c.Violation(sig, what, map[string]any{"engine": "A", "cfg": j.Cfg, "variant": j.v.Name, "embedding": j.Emb,
-		"batch_ex": j.BatchEx, "mismatch": m, "steps": steps})
+	rn.st.pending[key] = &pendingViolation{j: j, m: m}
+	rn.st.pendingOrder = append(rn.st.pendingOrder, key)
+}
+
+type pendingViolation struct {
+	j *job
+	m *mismatch
+}
+
+func baseOf(variantName string) string {
+	switch {
+	case strings.HasPrefix(variantName, "metrics/"):
+		return strings.TrimPrefix(variantName, "metrics/")
+	case strings.HasPrefix(variantName, "moss+"):
+		return "moss"
+	}
+	return variantName
+}
+
+func (rn *runner) emit() {
+	rn.st.mu.Lock()
+	pend, order := rn.st.pending, rn.st.pendingOrder
+	rn.st.pending, rn.st.pendingOrder = map[string]*pendingViolation{}, nil
+	rn.st.mu.Unlock()
+	sort.Strings(order)
+	for _, key := range order {
+		pv := pend[key]
+		j, m := pv.j, pv.m
+		name := j.v.Name
+		if b := baseOf(name); b != name {
+			if _, ok := pend[b+":"+m.Class]; ok {
+				continue // reported under the base adapter
+			}
+		}
+		sig := name + ":" + m.Class
+		steps := j.Steps
+		if m.StepIdx+1 < len(steps) {
+			steps = steps[:m.StepIdx+1]
+		}
+		what := fmt.Sprintf("KV store %s: %s", name, describe(m))
+		rn.c.Violation(sig, what, map[string]any{"engine": "A", "cfg": j.Cfg, "variant": name, "embedding": j.Emb,
+			"batch_ex": j.BatchEx, "mismatch": m, "steps": steps})
+	}
 }
 
 func (rn *runner) runJobs(jobs []*job, par int) {
@@ -204,7 +288,7 @@ func run(c *core.Ctx) error {
 	}
 	vars := variants(c.Thorough())
 	base := c.TempDir("kv")
-	rn := &runner{c: c, base: base, st: &stats{perVar: map[string]*varStat{}, leads: map[string]int{}}, timeout: 60 * time.Second}
+	rn := &runner{c: c, base: base, st: newStats(), timeout: 60 * time.Second}
 	rng := rand.New(rand.NewSource(c.Seed))
 	par := 8
 
@@ -328,6 +412,8 @@ func run(c *core.Ctx) error {
 	rng.Shuffle(len(jobs), func(i, j int) { jobs[i], jobs[j] = jobs[j], jobs[i] })
 	rn.runJobs(jobs, par)
 	c.Traces(len(jobs))
+	rn.settleUnreproduced()
+	rn.emit()
 	c.Logf("engine A done")
 
 	// ---- Engine B: TLC judges the recorded runs
@@ -395,7 +481,7 @@ func replay(c *core.Ctx, path string) error {
 		return fmt.Errorf("unknown variant %q", art.Replay.Variant)
 	}
 	base := c.TempDir("kv")
-	rn := &runner{c: c, base: base, st: &stats{perVar: map[string]*varStat{}, leads: map[string]int{}}, timeout: 60 * time.Second}
+	rn := &runner{c: c, base: base, st: newStats(), timeout: 60 * time.Second}
 	c.SetRule("replay of one saved artefact")
 	if art.Replay.Engine == "B" {
 		if art.Replay.Run == nil {
@@ -407,6 +493,8 @@ func replay(c *core.Ctx, path string) error {
 	}
 	j := &job{Engine: "A-replay", Cfg: art.Replay.Cfg, Variant: v.Name, Emb: art.Replay.Emb, BatchEx: art.Replay.BatchEx, Steps: art.Replay.Steps, v: *v, emb: embByName(art.Replay.Emb)}
 	rn.execute(j)
+	rn.settleUnreproduced()
+	rn.emit()
 	c.Traces(1)
 	return nil
 }
